@@ -171,6 +171,17 @@ func (br *BodyBuffer) Reset() error {
 	return nil
 }
 
+// followLimit aligns the buffer's own limit with the limit of the transaction writing to it:
+// ctl:requestBodyLimit / ctl:responseBodyLimit change the latter after the (pooled) buffer was
+// created with the limit of the WAF, and a raised limit must not make Write refuse the body.
+func (br *BodyBuffer) followLimit(limit int64, memoryOnly bool) {
+	br.options.Limit = limit
+	if memoryOnly {
+		// the response body is just buffered in memory: Limit and MemoryLimit are equal
+		br.options.MemoryLimit = limit
+	}
+}
+
 // NewBodyBuffer Initializes a body reader
 // After writing memLimit bytes to the memory buffer, data will be
 // written to a temporary file
